@@ -2,7 +2,7 @@
 # tools/confirm_seed.sh <ID>   -- confirm both seeds (a, b) of /tmp/seed/<ID> in that scratch worktree: tests pass with the patch,
 # demo fails with it and passes without it. Writes /tmp/seed/<ID>/_seed/<v>/confirm.txt
 id=$1
-wt=/tmp/seed/$id
+wt=${SEEDROOT:-/tmp/seed}/$id
 cd $wt || exit 2
 for v in a b; do
   d=$wt/_seed/$v
